@@ -469,6 +469,7 @@ type CalleeSpec struct {
 	Pure     bool       // no heap effect at all
 	Havoc    bool       // havoc all heaps
 	Results  []string   // names for results
+	MutGhosts []string  // ghosts havocked by the call (then constrained by ensures)
 	Used     int
 }
 
@@ -494,6 +495,8 @@ type FuncSpec struct {
 	Trusted   bool // lib contract (never verified against a body)
 	File      string
 	Lemmas    []*Clause
+	Binds     map[string]map[string]Expr // callee name -> callee ghost -> expression (evaluated at the call site)
+	MutGhosts []string                   // ghosts this function may change (declared with "ghostout")
 }
 
 type SpecFile struct {
@@ -739,6 +742,30 @@ func parseSpecLines(lines []specLine, pkg string, file string, trusted bool) (*S
 			curCallee = cs
 		case "endcallee":
 			curCallee = nil
+		case "bind":
+			// bind <callee> <ghost> := expr
+			callee, r2 := splitWord(rest)
+			parts := strings.SplitN(r2, ":=", 2)
+			if len(parts) != 2 {
+				return nil, fmt.Errorf("%s: bind callee ghost := expr", ln.pos)
+			}
+			e, err := ParseExpr(strings.TrimSpace(parts[1]))
+			if err != nil {
+				return nil, fmt.Errorf("%s: %v", ln.pos, err)
+			}
+			if cur.Binds == nil {
+				cur.Binds = map[string]map[string]Expr{}
+			}
+			if cur.Binds[callee] == nil {
+				cur.Binds[callee] = map[string]Expr{}
+			}
+			cur.Binds[callee][strings.TrimSpace(parts[0])] = e
+		case "ghostout":
+			if curCallee != nil {
+				curCallee.MutGhosts = append(curCallee.MutGhosts, splitList(rest)...)
+			} else {
+				cur.MutGhosts = append(cur.MutGhosts, splitList(rest)...)
+			}
 		case "option":
 			k, v := splitWord(rest)
 			cur.Options[k] = v
